@@ -2,6 +2,7 @@ import Driver.Store
 import NixModel.Store.ApiW
 import NixModel.Generated.WriteOrder
 import NixModel.Generated.LinkOrder
+import NixModel.Generated.CopyOrder
 open Lean Nix.Store
 
 /-!
@@ -25,6 +26,10 @@ Additional ops:
         the step lists of Generated/LinkOrder.lean (stateless): function = a name of `LinkOrder.all`; state = null (the
         descriptor does not exist yet) | [ticks, linked]; answer {"err": null | class, "dim": null | {"ticks": b,
         "link": null | {"fresh": b, "complete": b, "index": null | n, "column": null | i}}, "ndims": n, "touched": b}
+  ["copy_run", function, kindOk, [truthOk, memberOk, taken, storable], [keepBoolOk, keepValue], [childrenBoolOk,
+        childrenValue]]       the copying functions of Pure/CopyWrite.lean run on the step lists of Generated/CopyOrder.lean
+        from a container holding one item; answer {"err": null | class, "items": n, "last": null | {"fresh": b,
+        "named": b, "props": b}}
 -/
 namespace Driver.C12
 open Driver Driver.Store
@@ -199,8 +204,25 @@ def linkRun (name : String) (caps entries col rank cols state : Json) : Json :=
       ("touched", Json.bool (r.1.stamp != 1))])
   | _, _, _, _, _, _, _ => bad "link_run"
 
+open Nix.Guarded Nix.CopyWrite in
+def copyRun (name : String) (kind nm keep children : Json) : Json :=
+  match (Nix.Generated.CopyOrder.all.find? (·.1 == name)).map (·.2), (jArr nm).toList, (jArr keep).toList,
+        (jArr children).toList with
+  | some steps, [t, m, tk, st], [kb, kv], [cb, cv] =>
+    let call : Call := ⟨jBool kind, ⟨jBool t, jBool m, jBool tk, jBool st, if jBool tk then 1 else 4⟩, ⟨jBool kb, jBool kv⟩,
+                        ⟨jBool cb, jBool cv⟩, 10, 11⟩
+    let r := Nix.Guarded.run Nix.CopyWrite.sys call steps ⟨true, [⟨1, 2, true, true⟩]⟩
+    ok (Json.mkObj [
+      ("err", match r.2 with | none => Json.null | some e => Json.str e.toString),
+      ("items", Json.num r.1.items.length),
+      ("last", match r.1.items.reverse with
+        | i :: _ :: _ => Json.mkObj [("fresh", Json.bool (i.id == 11)), ("named", Json.bool i.named), ("props", Json.bool i.props)]
+        | _ => Json.null)])
+  | _, _, _, _ => bad "copy_run"
+
 def step (g : Graph) (j : Json) : Graph × Json :=
   match (jArr j).toList with
+  | [.str "copy_run", .str name, kind, nm, keep, children] => (g, copyRun name kind nm keep children)
   | [.str "link_run", .str name, caps, entries, col, rank, cols, state] => (g, linkRun name caps entries col rank cols state)
   | [.str "vec_set", .str name, stored, stamp, now, arg] => (g, vecSet name stored stamp now arg)
   | [.str "vec_ticks", stored, linked, arg] => (g, vecTicks stored linked arg)
